@@ -654,12 +654,23 @@ def main():
     os.makedirs(REPLAY_DIR, exist_ok=True)
     viol_lines = []
     found = None
-    if real or lost_fail or unverifiable:
+    proactive = (tier == "thorough")
+    if real or lost_fail or unverifiable or proactive:
         import replay_search
         try:
             found = replay_search.search(REPO, pid)
         except Exception as e:  # the search is best-effort
             found = {"found": False, "error": str(e)}
+    if proactive and not (real or lost_fail or unverifiable) and found and found.get("found") and found.get("confirmed"):
+        # thorough tier only: the bounded differential search of the replay crate is also run when no
+        # obligation failed.  It proves nothing (never counted as discharged), but a failing input that
+        # is confirmed on the real code is a violation whatever found it.
+        sc = found.get("scenario") or {}
+        real.append({"obligation": "bounded-search :: %s :: %s" % (found.get("family"), str(sc.get("variant"))[:120]),
+                     "fn": "replay family %s" % found.get("family"),
+                     "msg": "no contract obligation failed, but the supplementary bounded search (thorough tier) found an input on which the real code disagrees with the reference model",
+                     "clause": "expected %s, got %s" % (str(sc.get("expected"))[:200], str(sc.get("got"))[:200]), "origin": None,
+                     "rendered": json.dumps(sc)[:3000]})
     if lost_fail:
         if found and found.get("found") and found.get("confirmed"):
             # the failure is not proof brittleness: a concrete input fails on the real code
@@ -707,6 +718,10 @@ def main():
                   "retries": getattr(vr, "retries", {})},
         "extraction": {"rewrites": rewrites, "template": "contracts/toodee.vt", "repo_src_hash": repo_src_hash(repo_src)},
         "bounded": kani_info,
+        "bounded_search": ({"tool": "replay crate (/verif/replay): bounded differential search against an independent reference model; supplementary, proves nothing, never counted as discharged",
+                            "when": "thorough tier: always; quick tier: only to find a concrete input for a failed obligation or to break the tie for an unverifiable / drifted function",
+                            "families_tried": [(t.get("profile"), t.get("family"), t.get("status"), t.get("summary")) for t in (found or {}).get("tried", [])],
+                            "found": bool(found and found.get("found"))} if found is not None else None),
         "assumed_contracts": assumed_fns,
         "exhaustive": False,
         "undecided": undecided,
